@@ -29,19 +29,57 @@ class RefProblem(object):
     """a taxonomy with n_leaves leaves, labelled reference cells, a query"""
 
     def __init__(self, rng, n_leaves=None, n_genes=None, depth=None,
-                 cells_per_leaf=(3, 6), n_query=None):
+                 cells_per_leaf=(3, 6), n_query=None, wide=False):
+        """wide=True: three levels, 3-4 classes with 2-3 subclasses each, 2-3
+        clusters per subclass (so every level above the leaves has >= 3
+        parents with > 1 child), node names of varied length, >= 64 query
+        cells - the shape on which the *order* in which sibling parents are
+        visited (and so anything enumerated out of a set of node names)
+        shows in the mapping"""
         self.seed = rng.randrange(2 ** 31)
         nprng = np.random.default_rng(self.seed)
+        self.wide = wide
+        if wide:
+            depth = 3
+            n_genes = n_genes or rng.randint(20, 28)
+            n_query = n_query or rng.randint(64, 80)
+            cells_per_leaf = (3, 4)
+
+            def name(prefix, i):
+                return '%s%d%s' % (prefix, i, 'abcdefgh'[:rng.randint(0, 7)])
+            wide_tree = {'class': {}, 'subclass': {}}
+            leaves = []
+            n_sub = 0
+            for ci in range(rng.randint(3, 4)):
+                subs = []
+                for _ in range(rng.randint(2, 3)):
+                    sub = name('sub', n_sub)
+                    n_sub += 1
+                    subs.append(sub)
+                    kids = [name('cl', len(leaves) + k)
+                            for k in range(rng.randint(2, 3))]
+                    leaves += kids
+                    rng.shuffle(kids)
+                    wide_tree['subclass'][sub] = kids
+                rng.shuffle(subs)
+                wide_tree['class'][name('class', ci)] = subs
+            n_leaves = len(leaves)
         self.n_leaves = n_leaves or rng.randint(5, 8)
         self.n_genes = n_genes or rng.randint(10, 16)
         depth = depth or rng.choice([2, 3])
         self.hierarchy = ['class', 'subclass', 'cluster'][3 - depth:]
-        leaves = ['cl%02d' % i for i in range(self.n_leaves)]
+        if not wide:
+            leaves = ['cl%02d' % i for i in range(self.n_leaves)]
         rng.shuffle(leaves)
         # group leaves into parents, level by level (each parent >= 1 child)
         self.tree = {'hierarchy': list(self.hierarchy)}
         children = leaves
-        for li in range(depth - 2, -1, -1):
+        if wide:
+            for lvl in ('class', 'subclass'):
+                keys = list(wide_tree[lvl])
+                rng.shuffle(keys)
+                self.tree[lvl] = {k: wide_tree[lvl][k] for k in keys}
+        for li in (range(depth - 2, -1, -1) if not wide else ()):
             lvl = self.hierarchy[li]
             n_par = max(1, min(len(children) - 1,
                                rng.randint(2, 3)))
@@ -92,7 +130,7 @@ class RefProblem(object):
         # plus 0-2 genes the reference does not have
         shared = list(self.genes)
         rng.shuffle(shared)
-        shared = shared[rng.randint(0, 2):]
+        shared = shared[rng.randint(1 if wide else 0, 2):]
         self.shared_genes = sorted(shared)
         self.query_genes = shared + ['x%02d' % i
                                      for i in range(rng.randint(0, 2))]
@@ -109,8 +147,25 @@ class RefProblem(object):
         from cell_type_mapper.taxonomy.taxonomy_tree import TaxonomyTree
         return TaxonomyTree(data=copy.deepcopy(self.tree))
 
+    def obs_columns(self):
+        """label columns of the reference cells, one per level"""
+        cols = {}
+        h = self.hierarchy
+        parent_of = {}
+        for pl, cl in zip(h[:-1], h[1:]):
+            for p, kids in self.tree[pl].items():
+                for k in kids:
+                    parent_of[(cl, k)] = p
+        for i, leaf in enumerate(self.cell_leaf):
+            node = leaf
+            for lvl in reversed(h):
+                cols.setdefault(lvl, [None] * self.n_cells)[i] = node
+                if lvl != h[0]:
+                    node = parent_of[(lvl, node)]
+        return {lvl: cols[lvl] for lvl in h}
+
     def describe(self):
-        return {'seed': self.seed, 'n_leaves': self.n_leaves,
+        return {'seed': self.seed, 'wide': self.wide, 'n_leaves': self.n_leaves,
                 'n_genes': self.n_genes, 'hierarchy': self.hierarchy,
                 'n_cells': self.n_cells, 'n_query': len(self.query_ids)}
 
@@ -156,7 +211,8 @@ class StageRun(object):
         p = self.d / 'ref.h5ad'
         if not p.is_file():
             pipeline.write_h5ad(p, self.prob.X, self.prob.cell_ids,
-                                self.prob.genes, encoding='csr')
+                                self.prob.genes, encoding='csr',
+                                obs_cols=self.prob.obs_columns())
         return p
 
     def stats_file(self):
@@ -502,6 +558,14 @@ class Mapping(StageRun):
             n = mrng.randint(min(4, len(prob.shared_genes)),
                              len(prob.shared_genes))
             lookup[key] = mrng.sample(prob.shared_genes, n)
+        if prob.wide:
+            # one branching subclass lists only genes the query does not
+            # have: validate_marker_lookup patches it from its ancestors
+            # (a union of sets of gene names)
+            missing = [g for g in prob.genes if g not in prob.shared_genes]
+            sub = [k for k, v in prob.tree['subclass'].items() if len(v) > 1]
+            if missing and sub:
+                lookup['subclass/%s' % mrng.choice(sorted(sub))] = missing
         self.markers = self.d / 'query_markers.json'
         self.markers.write_text(json.dumps(lookup))
         self.out_dir = self.d / 'mapping_out'
@@ -512,7 +576,7 @@ class Mapping(StageRun):
             self.query, self.stats_file(), self.markers, self.out_dir,
             self.tmp, n_processors=n_processors,
             chunk_size=self.chunk_size, bootstrap_factor=0.7,
-            bootstrap_iteration=7, rng_seed=self.rng_seed, n_runners_up=2,
+            bootstrap_iteration=10, rng_seed=self.rng_seed, n_runners_up=2,
             normalization='raw')
 
     def run(self, n_processors):
@@ -581,9 +645,64 @@ class Mapping(StageRun):
                 p.unlink()
 
 
+class MappingWide(Mapping):
+    """the mapping on a `RefProblem(wide=True)`: >= 32 cells per chunk spread
+    over >= 3 sibling parents per level, bootstrap factor 0.7, 10 iterations
+    (hash-seed runs)"""
+    name = 'mappingWide'
+    chunk_size = 40
+
+
+class StatsFromColumns(Stats):
+    """reference statistics with the taxonomy read from the label columns of
+    the h5ad (`column_hierarchy`): the children of every node go through a
+    `set` (taxonomy/utils.py: get_taxonomy_tree)"""
+    name = 'statsColumns'
+
+    def prepare(self):
+        self.ref_h5ad()
+        self.out = self.d / 'stats_columns_out.h5'
+
+    def run(self, n_processors):
+        from cell_type_mapper.diff_exp.precompute_from_anndata import (
+            precompute_summary_stats_from_h5ad)
+        precompute_summary_stats_from_h5ad(
+            data_path=self.ref_h5ad(),
+            column_hierarchy=list(self.prob.hierarchy), taxonomy_tree=None,
+            output_path=self.out, rows_at_a_time=self.rows_at_a_time,
+            normalization='raw', tmp_dir=self.tmp,
+            n_processors=n_processors)
+
+    def canonical(self):
+        out = h5_digest(self.out, skip=('taxonomy_tree',))
+        with h5py.File(self.out, 'r') as src:
+            tree = json.loads(src['taxonomy_tree'][()].decode('utf-8'))
+        tree.pop('metadata', None)     # timestamp, absolute path
+        # as text: the order of the children lists and of the nodes counts
+        out['taxonomy_tree'] = json.dumps(tree)
+        return out
+
+
+#: fixtures that only the hash-seed runs use (on a wide problem)
+HASHSEED_EXTRA = {c.name: c for c in (MappingWide, StatsFromColumns)}
+
 STAGES = {c.name: c for c in (Mapping, Stats, RefMarkers, RefMarkersTranspose,
                               PMask, PMarkers, PMarkersTranspose, Selection,
                               Transpose)}
+
+
+def run_wide_canonical(prob_seed, workdir, n_proc=2):
+    """canonical outputs of the HASHSEED_EXTRA fixtures on the wide problem
+    derived from prob_seed"""
+    import random
+    prob = RefProblem(random.Random(prob_seed), wide=True)
+    out = {}
+    for name, cls in HASHSEED_EXTRA.items():
+        with pipeline.quiet():
+            st = cls(prob, workdir)
+            st.run(n_proc)
+        out[name] = st.canonical()
+    return out
 
 
 def run_all_canonical(prob_seed, n_leaves, n_proc, fixtures, workdir,
@@ -611,8 +730,14 @@ if __name__ == '__main__':
     import warnings
     warnings.simplefilter('ignore')
     spec = json.loads(sys.argv[1])
-    with pipeline.workdir('ctmverif_hashseed_') as wd:
-        res = run_all_canonical(spec['prob_seed'], spec.get('n_leaves'),
-                                spec['n_proc'], spec['fixtures'], wd,
-                                spec.get('selection_query_as_set', False))
+    res = {}
+    if spec.get('fixtures'):
+        with pipeline.workdir('ctmverif_hashseed_') as wd:
+            res = run_all_canonical(
+                spec['prob_seed'], spec.get('n_leaves'), spec['n_proc'],
+                spec['fixtures'], wd,
+                spec.get('selection_query_as_set', False))
+    if spec.get('wide'):
+        with pipeline.workdir('ctmverif_hashseed_') as wd:
+            res.update(run_wide_canonical(spec['prob_seed'], wd))
     sys.stdout.write('CANONICAL ' + json.dumps(res, sort_keys=True) + '\n')
